@@ -72,8 +72,11 @@ def ensure_module(m, native, getdev):
     name = modname(m, native, getdev)
     path = os.path.join(SCRATCH, name + '.py')
     if not os.path.exists(path):
-        with open(path, 'w') as f:
+        # written under another name and renamed: a worker process must never import a half-written module
+        tmp = '%s.%d.tmp' % (path, os.getpid())
+        with open(tmp, 'w') as f:
             f.write(MODSRC % {'ioport': IOPORT if native else '', 'devices': DEVICES if getdev else ''})
+        os.replace(tmp, path)
     return name
 
 
@@ -202,6 +205,10 @@ def run(out):
     SCRATCH = tempfile.mkdtemp(prefix='verif_c20_')
     sys.path.insert(0, SCRATCH)
     try:
+        for m_ in range(0, 8):                                    # every fake module exists before the worker processes start
+            for nat_ in (0, 1):
+                for gd_ in (0, 1):
+                    ensure_module(m_, nat_, gd_)
         names = [(-1, -1), (2, -1), (2, 5), (2, 0)]               # absent / 'mod' / 'mod/API' / 'mod/'
         envb = [(-1, -1), (3, -1), (3, 6)]                        # MIDO_BACKEND unset / 'mod3' / 'mod3/API6'
         var3 = [-1, 0, 7]                                         # unset / set-but-empty / set
